@@ -48,6 +48,20 @@ func LongAcctBytes() []byte {
 
 func LongAcct() string { return Bech(LongAcctBytes()) }
 
+// VeryLongAcctBytes: a 40-byte account address (the SDK accepts up to 255 bytes).
+func VeryLongAcctBytes() []byte {
+	b := make([]byte, 40)
+	for j := range b {
+		b[j] = byte(0x30 + j)
+	}
+	return b
+}
+
+func VeryLongAcct() string { return Bech(VeryLongAcctBytes()) }
+
+// WrapThresholds: values v for which 65*v wraps around 2^32 to something small (65 = signature length).
+var WrapThresholds = []uint32{66076420, 66076421, 132152840, 3237744577, 1 << 31, 1<<31 + 1, 0xfffffffe}
+
 // AcctIndex returns the universe index of a bech32 address, or -1.
 func AcctIndex(a string) int {
 	for i := 0; i < NAccounts; i++ {
